@@ -924,6 +924,54 @@ def selftest(args):
         rej = bool(rep["bad"])
         print("trace-binding API: mode flag flipped at line %d -> %s" % (i + 1, "rejected at line %s" % rep["bad"][0] if rej else "ACCEPTED (not bound!)"))
         ok = ok and rej
+        # trace binding: scope machine
+        progs = os.path.join(run.dir, "st_env_cases.ndjson")
+        with open(progs, "w") as f:
+            for src in ["{{ x = 1 }}@if(true){{ x = \"s\" }}@end{{ x }}", "@each(v in [1, 2, 3]){{ loop.iter }}{{ v }}@end",
+                        "@each(v in [1]){{ loop = 2 }}@end", "{{ a = 1 }}@for(i = 0; i < 2; i++){{ b = i }}{{ a }}@end{{ b }}"]:
+                f.write(json.dumps({"src": src, "data": [], "expect": {"kind": "any"}, "tags": []}) + "\n")
+        base = os.path.join(run.dir, "st_env.ndjson")
+        run.harness_cmd(["envtrace", "-cases", progs, "-out", base, "-shards", "1"])
+        ev = [json.loads(l) for l in open(base + ".0")]
+
+        def envcheck(events, name):
+            p = os.path.join(run.dir, name + ".ndjson")
+            open(p, "w").write("\n".join(json.dumps(e) for e in events) + "\n")
+            st = run.tlc("Trace_Env", TRACE_ENV_CFG % p, name=name, timeout=900, workers=1)
+            vpath, cnt = run.records(st)
+            return json.loads(open(vpath).readline())
+        rep = envcheck(ev, "st_env_good")
+        clean = not rep["bad"] and rep["consumed"] == len(ev)
+        print("trace-binding scopes: %d recorded events accepted: %s" % (len(ev), clean))
+        ok = ok and clean
+        i = next(k for k, e in enumerate(ev) if e["op"] == "set" and not e["ok"] and e["key"] == "x")
+        ev2 = [dict(e) for e in ev]
+        ev2[i]["ok"] = True
+        rep = envcheck(ev2, "st_env_retyped")
+        rej = any(b["kind"] == "retyped" for b in rep["bad"])
+        print("trace-binding scopes: refused Set(x, STRING) logged as stored -> %s" % ("rejected (retyped)" if rej else "ACCEPTED (not bound!)"))
+        ok = ok and rej
+        i = next(k for k, e in enumerate(ev) if e["op"] == "set" and e["key"] == "loop")
+        ev2 = [dict(e) for e in ev]
+        ev2[i]["ok"] = True
+        rep = envcheck(ev2, "st_env_loop")
+        rej = any(b["kind"] == "loop-assigned" for b in rep["bad"])
+        print("trace-binding scopes: Set(loop) logged as stored -> %s" % ("rejected (loop-assigned)" if rej else "ACCEPTED (not bound!)"))
+        ok = ok and rej
+        i = next(k for k, e in enumerate(ev) if e["op"] == "loop" and e["index"] == 1)
+        ev2 = [dict(e) for e in ev]
+        ev2[i]["iter"] = 1
+        rep = envcheck(ev2, "st_env_meta")
+        rej = any(b["kind"] == "loop-meta" for b in rep["bad"])
+        print("trace-binding scopes: loop.iter of the second pass corrupted -> %s" % ("rejected (loop-meta)" if rej else "ACCEPTED (not bound!)"))
+        ok = ok and rej
+        i = next(k for k, e in enumerate(ev) if e["op"] == "read" and e["key"] == "b" and not e["ok"])
+        ev2 = [dict(e) for e in ev]
+        ev2[i]["ok"], ev2[i]["type"] = True, "INTEGER"
+        rep = envcheck(ev2, "st_env_read")
+        rej = any(b["kind"] == "drift" for b in rep["bad"])
+        print("trace-binding scopes: a name bound inside @for read as visible after it -> %s" % ("rejected" if rej else "ACCEPTED (not bound!)"))
+        ok = ok and rej
     except vp.Infra as e:
         print("selftest infrastructure failure:", e)
         ok = False
